@@ -8,7 +8,7 @@ from multiprocessing import Pool
 
 import z3
 
-from . import common, resolve
+from . import common, mainrun, resolve
 from ..native import build_native, run_native
 
 ASSUMPTIONS = [
@@ -174,6 +174,21 @@ def run(prop, tier, seed, repo, jobs):
                 samples.append({'shape': sh.name, 'obligation': ob['name'], 'verdict': 'sat (reproduced natively)', 'refs': ob['refs_present'], 'requested': ob['requested'], 'detail': ob.get('detail')})
             else:
                 inconclusive.append('%s: %s: solver counterexample did not reproduce on the real code (replay %s)' % (sh.name, ob['name'], rpath))
+    # the same questions asked of the real main(): command line -> ids -> resolution -> what the engine is started with
+    main_stage = {'variants': 0, 'paths': 0}
+    if prop in mainrun.STAGE_OBLIGATIONS:
+        try:
+            st = mainrun.stage(prop, tier, repo, jobs)
+            violations += st['violations']
+            inconclusive += st['inconclusive']
+            samples += st['samples']
+            nob += st['nob']
+            ndis += st['ndis']
+            paths += st['paths']
+            fns |= st['fns']
+            main_stage = {'variants': st['variants'], 'paths': st['paths']}
+        except Exception as e:   # pragma: no cover
+            inconclusive.append('main() stage failed: %s' % e)
     # translator validation: two concrete projects through the real binary vs the oracle
     try:
         sh = shs[0]
@@ -197,9 +212,9 @@ def run(prop, tier, seed, repo, jobs):
         'rule': 'one evaluation = one feasible symbolic path = one set of reference/request subsets with the same resolver outcome',
         'samples': samples or [{'note': 'none'}], 'functions_encoded': sorted(fns),
         'bounds': [{'shape': s.name, 'targets': [list(map(str, u)) for u in s.all_targets()], 'candidate_references': len(s.refs), 'candidate_requests': s.requests} for s in shs],
-        'traces_validated_against_impl': validated,
-        'outside_claim': ['project graphs outside the listed families', 'YAML parsing of references', 'clap possible_values filtering'],
+        'traces_validated_against_impl': validated, 'main_stage': main_stage,
+        'outside_claim': ['project graphs outside the listed families', 'YAML parsing of references', 'clap itself (its possible_values check is modelled as membership in the list the real code computes)'],
         'exhaustive': False,
     }
-    common.write_evidence(prop, tier, seed, 'other', coverage, ASSUMPTIONS, wall, len(violations))
+    common.write_evidence(prop, tier, seed, 'other', coverage, ASSUMPTIONS + [mainrun.ASSUMPTION], wall, len(violations))
     return common.finish(prop, violations, inconclusive, known_lines)
